@@ -4,7 +4,7 @@ module.exports.run_case = async function (c, repo) {
     const out = [], warns = [], names = [];
     let err = null;
     try {
-        await rbql.query_table(c.qjs, c.A.map(r => r.slice()), out, warns, c.B ? c.B.map(r => r.slice()) : null, c.hdrA || null, c.hdrB || null, names);
+        await rbql.query_table(c.qjs, c.A.map(r => r.slice()), out, warns, c.B ? c.B.map(r => r.slice()) : null, c.hdrA || null, c.hdrB || null, names, true, c.init_js || '');
     } catch (e) {
         const n = (e && e.constructor && e.constructor.name) || 'Error';
         err = [n.includes('Parsing') ? 'P' : n.includes('Runtime') ? 'R' : n.includes('IOHandling') ? 'IO' : 'O', 0, null];
